@@ -301,8 +301,13 @@ def steady_state_transport_solver(
     y = np.linspace(0, ymx, ny, endpoint=False)
 
     Z, Y, X = np.meshgrid(z[levels], y, x, indexing="ij")
-    grid = (np.squeeze(X), np.squeeze(Y), np.squeeze(Z))
-    result = (grid, np.squeeze(conc), np.squeeze(flx))
+    if nlvls == 1:
+        # drop the level axis only; a one-cell-wide grid keeps its shape
+        grid = (X[0], Y[0], Z[0])
+        result = (grid, conc[0], flx[0])
+    else:
+        grid = (X, Y, Z)
+        result = (grid, conc, flx)
 
     # Store to cache for footprint mode
     if cache is not None and footprint:
